@@ -71,6 +71,19 @@ CHECKS.update({
             "Coq proof (profile-quantified theorems) + differential builds of the harness compared with each other and with the model", "§3 C20"),
 })
 
+CHECKS.update({
+    "C07": ("proof", "unbounded theorems: String::from, Debug's inner text and Display without flags equal the canonical string (sign, integer part, "
+            "'.', exactly f digits) for every well-formed Decimal; the round trip through the parser is stated in full and, until the parser "
+            "theorems are finished, decided by the correspondence run on model and implementation (partial); serde-as-str plumbing is tie only",
+            PROVED, "§3 C07"),
+    "C09": ("proof", "unbounded theorems: the binary gcd specialised to 10^e equals Z.gcd (loop by induction with a decreasing measure, a termination "
+            "argument the Rust code only assumes), as_integer_ratio = the reduced fraction, which is unique; value-equal Decimals feed identical "
+            "data to any Hasher", PROVED, "§3 C09"),
+    "C11": ("proof", "unbounded theorems: Display::fmt = specification for every formatter state (precision clamp, round-then-abs, carry into the "
+            "integer part, zero extension, sign from d) and the model of core::fmt's pad_integral = declarative padding rules; core::fmt itself is "
+            "modelled, validated by the tie on 88 static flag combinations incl. plain i128", PROVED, "§3 C11"),
+})
+
 NOT_YET = {}
 
 def main():
